@@ -1780,6 +1780,13 @@ func (an *shapeAn) checkFieldOfLookup(sf *symFn, fa *ssa.FieldAddr, pc *Sym, cha
 	an.nOps++
 	m, k := sf.val(lk.X), sf.val(lk.Index)
 	construct := "mapderef:" + an.p.FuncKey(sf.fn) + " " + clip(m.String(), 80) + "[" + clip(k.String(), 80) + "]"
+	// the key comes from ranging over this very map: present (and the maps of this code base hold no nil values)
+	if k.Op == "elem" && strings.HasSuffix(k.Name, "_k") {
+		if coll := binderColls[strings.TrimSuffix(k.Name, "_k")]; coll != nil && coll.String() == m.String() {
+			an.ob("E2.nil-deref", construct, Discharged, "the key is produced by ranging over the same map", an.p.InstrPos(fa), true)
+			return
+		}
+	}
 	if an.presentOnEveryPath(sf, fa, m.String(), k.String()) {
 		an.ob("E2.nil-deref", construct, Discharged, "on every path the key was either tested (m[k] != nil) or just assigned a fresh record", an.p.InstrPos(fa), true)
 		return
